@@ -119,6 +119,20 @@ TRhRun ==
                      \o Chk(e.rc = 0, "C16", "rh-run-rc", l, info \o << e.rc >>)
                      \o MachineChecks(e, s.fam))
 
+\* the inner scan called directly: window = the w bytes in front of the range, hash = H(window); the scan stops ON the hitting
+\* byte (idx = its index) or after max_idx bytes
+TRhUntil ==
+  /\ IsEv("RhUntil") /\ UNCHANGED << mst, rst >>
+  /\ LET e == Tr[l]
+         hist == PatBytes(e.data[1], e.data[2], e.w)
+         buf == PatBytes(e.data[1], e.data[2] + e.w, e.data[3])
+         r == Run(hist, buf, FromHex(e.mask), FromHex(e.trig))
+         info == << e.scan, e.w, e.data[3], e.mask, e.trig >>
+     IN Step(IF e.obs.fault # 0 THEN MachineChecks(e, "int")
+             ELSE    Chk(e.idx = (IF r.hit THEN r.off - 1 ELSE e.data[3]), "C09", "scan-index", l, info \o << e.idx, r.off, r.hit >>)
+                  \o Chk(e.hash = ToHex(r.h), "C09", "scan-hash", l, info \o << e.hash, ToHex(r.h) >>)
+                  \o MachineChecks(e, "int"))
+
 TRhMask ==
   /\ IsEv("RhMask") /\ UNCHANGED << mst, rst >>
   /\ LET e == Tr[l] IN
@@ -127,7 +141,7 @@ TRhMask ==
           \o MachineChecks(e, "isal"))
 
 TSkip == l <= NEv /\ Tr[l].e = "Mark" /\ UNCHANGED << mst, rst >> /\ Step(<< >>)
-TNext == TMhInit \/ TMhUpdate \/ TMhFinal \/ TRhInit \/ TRhReset \/ TRhRun \/ TRhMask \/ TSkip
+TNext == TMhInit \/ TMhUpdate \/ TMhFinal \/ TRhInit \/ TRhReset \/ TRhRun \/ TRhUntil \/ TRhMask \/ TSkip
 TSpec == TInit /\ [][TNext]_tvars
 TraceAccepted == WriteResult /\ TLCGet(2) = NEv + 1
 =============================================================================
